@@ -94,10 +94,14 @@ def evaluate(prop, runner, lines, full=False):
     return findings, impl, model
 
 
-def shrink(prop, runner, finding, budget=40):
-    """greedy one-step delta debugging: keep a candidate if the same reason class persists"""
+def shrink(prop, runner, finding, budget=40, seconds=90):
+    """greedy one-step delta debugging: keep a candidate if the same reason class persists;
+    bounded in rounds and in wall-clock time (large failing inputs are reported as they are)"""
     cur = finding
+    t0 = time.time()
     for _ in range(budget):
+        if time.time() - t0 > seconds:
+            break
         cands = prop.shrink_candidates(cur.case)
         if not cands:
             break
